@@ -240,6 +240,10 @@ class Server:
     # the launcher is then exactly the console script. Set it on the instance before start(). After a USR2 the launcher is executed
     # again (with GUNICORN_PID in the environment): the source has to cope with that itself
     launcher_prelude = ""
+    # callable run in the forked child right before the launcher is executed (subprocess preexec_fn): the credentials the MASTER
+    # is started with, e.g. lambda: (os.setgroups([0, 1, 4]), os.setgid(33)) for what `docker run --user 0:33` or a systemd unit
+    # with Group= but no User= gives. None = the harness's own. Set it on the instance before start()
+    preexec = None
 
     def __init__(self, tag, worker_class="sync", workers=1, settings=None, bind="tcp", conf_extra="",
                  env=None, app_source=None, argv_extra=None, default_conf=False):
@@ -323,7 +327,7 @@ class Server:
         self.proc = subprocess.Popen([common.PY, launcher] + ([] if self.default_conf else ["-c", self.conf_path]) +
                                      self.argv_extra + ["vapp:app"],
                                      cwd=self.start_cwd or self.dir, env=env, stdout=open(self.stderr_path, "ab"),
-                                     stderr=subprocess.STDOUT, start_new_session=True)
+                                     stderr=subprocess.STDOUT, start_new_session=True, preexec_fn=self.preexec)
         self.master_pid = self.proc.pid
         self.sid = self.master_pid
         self.t_start = time.monotonic()
